@@ -14,6 +14,8 @@ type Interp struct {
 	Consts map[string]Value
 	depth  int
 	fuel   int
+	// shadowing is set while a read-ahead probe runs
+	shadowing bool
 	// ReadAheadErr is set when a short-circuit consumer's one-element read-ahead
 	// (which the real implementation may or may not perform) would raise an error.
 	ReadAheadErr bool
@@ -21,6 +23,8 @@ type Interp struct {
 	NoShadow bool
 	// Trace of impure host calls, for C02 third opinion.
 	Calls map[string]int
+	// Builtins counts successful calls of built-ins ("list.map", "global.abs"), for coverage evidence.
+	Builtins map[string]int
 }
 
 func NewInterp() *Interp {
@@ -341,6 +345,10 @@ func (in *Interp) Eval(n *Node, env *Env) (Value, *Err) {
 		return in.Call(c, args)
 	case KStatic:
 		// a local binding shadows nothing here: static names are reserved by the generators
+		if a, ok := staticArity[n.Name]; ok && a != len(n.Args) {
+			// checked when the function is generated, i.e. before anything is evaluated
+			return nil, errf("wrong number of arguments at call of %s", n.Name)
+		}
 		args, e := in.evalArgs(n.Args, env)
 		if e != nil {
 			return nil, e
